@@ -71,7 +71,7 @@ def gen_struct(rnd, depth, leaves):
 def conversions(ctx, ex):
     """model correspondence of the two conversions of the decorator"""
     lines = []
-    for i in range(ctx.n(150, 3000)):
+    for i in range(ctx.n(600, 12000)):
         res = ctx.rnd.choice([8, 8, 4, 0])
         if i % 2 == 0:
             items = [gen_struct(ctx.rnd, 1, ["i", "i", "f"]) for _ in range(ctx.rnd.randrange(1, 4))]
@@ -96,7 +96,7 @@ def explore(ctx, extended=False, focus=None):
                "result leaf tied to a fresh public wire by a 0*0 = r - o constraint; returned plain structure = undecorated function on "
                "the plain arguments; keyword arguments refused without side effects; distinct = distinct (template, argument structure)")
     conversions(ctx, ex)
-    n = ctx.n(300, 6000) * (2 if extended else 1)
+    n = ctx.n(1200, 24000) * (2 if extended else 1)
     runs = []
     for i in range(n):
         calls = []
